@@ -666,6 +666,8 @@ class Bf3File:
         comments = {}
 
         def emit_bf3comp():
+            if not bf2_fwdata:
+                raise Bf3FileFormatError("BF2 instruction without firmware data")
             fwtagtype = bf2_fwdata[0].fwtagtype
             if fwtagtype not in BF2_TAGTYPE_MAP:
                 raise UnsupportedTagTypeError(
